@@ -909,11 +909,33 @@ impl Prop for C17 {
             }
             "embedded-cyclic-raw-deporder" | "embedded-cyclic-raw-to_proto" | "embedded-cyclic-gds" | "embedded-cyclic-tetris-dep_order" | "embedded-cyclic-tetris-proto" | "embedded-cyclic-tetris-placer" => {
                 let big = cx.n % 4 == 0;
-                let n = 1 + cx.rng.usize(if big { 300 } else { 6 });
-                let mut g = random_dag(&mut cx.rng, n, 100);
-                let kind = add_cycle(&mut cx.rng, &mut g);
-                let mut listing: Vec<usize> = (0..n).collect();
-                cx.rng.shuffle(&mut listing);
+                let lead_in = cx.n % 4 == 1;
+                let (n, g, kind, listing) = if lead_in {
+                    // a SHORT cycle (1..3 items) at the bottom of a long acyclic lead-in chain (9..48 items), entered from the top of the
+                    // chain: many frames open, few of them on the cycle
+                    let l = 9 + cx.rng.usize(40);
+                    let c = 1 + cx.rng.usize(3);
+                    let n = l + c;
+                    let mut g: Graph = vec![Vec::new(); n];
+                    for i in 0..l {
+                        g[i].push(i + 1);
+                    }
+                    for t in 0..c {
+                        g[l + t].push(l + (t + 1) % c);
+                    }
+                    let mut rest: Vec<usize> = (1..n).collect();
+                    cx.rng.shuffle(&mut rest);
+                    let mut listing = vec![0usize];
+                    listing.extend(rest);
+                    (n, g, format!("short-cycle-below-a-lead-in-of-{}", if l < 24 { "9..23" } else { "24..48" }), listing)
+                } else {
+                    let n = 1 + cx.rng.usize(if big { 300 } else { 6 });
+                    let mut g = random_dag(&mut cx.rng, n, 100);
+                    let kind = add_cycle(&mut cx.rng, &mut g);
+                    let mut listing: Vec<usize> = (0..n).collect();
+                    cx.rng.shuffle(&mut listing);
+                    (n, g, kind, listing)
+                };
                 cx.nontrivial(crate::rt::prng::strhash(&format!("{:?}{:?}", g, listing)));
                 cx.count(&format!("cyclic_cases.{}", kind));
                 if gen == "embedded-cyclic-raw-deporder" {
